@@ -1,9 +1,10 @@
 CONSTANTS
-  MaxLines = 2
+  MaxLines = 1
   SampleChoices <- Samples2
-  Reduce = TRUE
-  ChunkSizes = {1}
+  Reduce = FALSE
+  ChunkSizes = {2}
   BootMax = 2
+  Alphabet = 4
   Mode = "geno"
   FlagSet = "small"
   AllProjDepth = 1
